@@ -20,7 +20,7 @@ let parse_f tok = match String.split_on_char ':' tok with
   | ["set"; k; v] -> FSet (n_of_int (ios k), n_of_int (ios v))
   | ["ati"; i] -> FAtIndex (n_of_int (ios i)) | ["size"] -> FSize | ["empty"] -> FEmpty
   | ["has"; k] -> FContains (n_of_int (ios k)) | ["erase"; k] -> FErase (n_of_int (ios k))
-  | ["clear"] -> FClear
+  | ["clear"] -> FClear | ["copy"] -> FCopy
   | ["cat"; k] -> FAtC (n_of_int (ios k)) | ["cati"; i] -> FAtIndexC (n_of_int (ios i))
   | _ -> failwith ("bad op " ^ tok)
 let parse_p tok = match String.split_on_char ':' tok with
@@ -45,6 +45,17 @@ let () =
           (List.filter (fun s -> s <> "") (String.split_on_char ',' tbl)) in
       let _, outs = List.fold_left (fun (m, acc) tok ->
           let (m', o) = fm_step_conv t m (parse_f tok) in (m', (pr_out o ^ "|" ^ dump_fm m') :: acc)) ([], []) ops in
+      print_endline (String.concat " ; " (List.rev outs))
+    | "Q" :: ops ->
+      (* two objects: a:<op> / b:<op> / cab / cba  (Model.po2_step) *)
+      let parse_q tok =
+        if tok = "cab" then QCopyAB else if tok = "cba" then QCopyBA
+        else let o = parse_p (String.sub tok 2 (String.length tok - 2)) in
+          if tok.[0] = 'a' then QA o else QB o in
+      let _, outs = List.fold_left (fun (s, acc) tok ->
+          let (s', o) = po2_step s (parse_q tok) in
+          (s', (pr_out o ^ "|" ^ dump_po (p2_view s'.p2_h s'.p2_a) ^ "#" ^ dump_po (p2_view s'.p2_h s'.p2_b)) :: acc))
+          ({ p2_h = []; p2_a = []; p2_b = [] }, []) ops in
       print_endline (String.concat " ; " (List.rev outs))
     | "P" :: ops ->
       let _, outs = List.fold_left (fun (s, acc) tok ->
